@@ -103,6 +103,7 @@ type Term struct {
 
 type TermStore struct {
 	tab   map[string]*Term
+	ftab  map[tkey]*Term
 	next  int
 	tTrue *Term
 	tFals *Term
@@ -110,13 +111,43 @@ type TermStore struct {
 }
 
 func NewTermStore() *TermStore {
-	ts := &TermStore{tab: map[string]*Term{}, ufs: map[string]string{}}
+	ts := &TermStore{tab: map[string]*Term{}, ftab: map[tkey]*Term{}, ufs: map[string]string{}}
 	ts.tTrue = ts.mk(OConst, SBool, nil, 1, "")
 	ts.tFals = ts.mk(OConst, SBool, nil, 0, "")
 	return ts
 }
 
+type tkey struct {
+	op         Op
+	k          SortKind
+	w          uint8
+	n          uint8
+	c          uint64
+	name       string
+	a0, a1, a2 int32
+}
+
 func (ts *TermStore) mk(op Op, s Sort, args []*Term, c uint64, name string) *Term {
+	if len(args) <= 3 {
+		k := tkey{op: op, k: s.K, w: uint8(s.W), n: uint8(len(args)), c: c, name: name, a0: -1, a1: -1, a2: -1}
+		switch len(args) {
+		case 3:
+			k.a2 = int32(args[2].ID)
+			fallthrough
+		case 2:
+			k.a1 = int32(args[1].ID)
+			fallthrough
+		case 1:
+			k.a0 = int32(args[0].ID)
+		}
+		if t, ok := ts.ftab[k]; ok {
+			return t
+		}
+		t := &Term{Op: op, S: s, Args: args, C: c, Name: name, ID: ts.next}
+		ts.next++
+		ts.ftab[k] = t
+		return t
+	}
 	var sb strings.Builder
 	sb.Grow(32)
 	sb.WriteByte(byte(op))
